@@ -45,7 +45,7 @@ func checkC11(c *Ctx) {
 	_ = tab
 	rng := rand.New(rand.NewSource(c.Seed))
 	k := c.pick(4, 16)
-	n := c.pick(10, 60)
+	n := c.pick(10, 200)
 	type item struct {
 		text  string
 		flags []string
